@@ -229,6 +229,16 @@ def check_C07(A: Analysis, tier):
     shared_state_rule(A, rs)
     rules.append(rs)
 
+    from .rules_paths import c05_cached
+    c5g = [r for r in c05_cached(A) if r.rid == "C05.g"][0]
+    ri7 = Rule("C07", "C07.i", "an existing cid list is updated in place, never replaced by a rename: the advisory flock that serialises "
+               "instances of other processes lives on the file's inode, and a waiter that obtains the lock on a replaced (unlinked) inode works on "
+               "a stale list (shared with C05.g)", floor=c5g.floor)
+    ri7.instances, ri7.nontrivial, ri7.obligations = list(c5g.instances), set(c5g.nontrivial), c5g.obligations
+    for f in c5g.findings:
+        ri7.fail(f.func, f.construct, f.message, f.loc, f.detail)
+    rules.append(ri7)
+
     rh = Rule("C07", "C07.h", "no call removes a directory of the store's permanent trees: a shard directory is shared by every identifier "
               "with the same prefix, and creating it (makedirs) and moving a file into it is atomic with no claim an rmdir could hold", floor=3)
     seen_h = set()
@@ -434,6 +444,19 @@ def check_C12(A: Analysis, tier):
                     if l[0] == "metadata_locked_docs":
                         rd.fail(it.entry, "metadata_locked_docs", f"document claim {showlock(l)} may be held at exit ({kind} {label})")
     rules.append(rd)
+
+    # a document claim serialises writers of ONE (pid, format) document; the staging file must therefore be nameable by
+    # this call only (a NamedTemporaryFile / mkstemp name), or two formats of one pid publish each other's bytes
+    from .rules_paths import check_C09
+    c9 = [r for r in check_C09(A, "quick") if r.rid == "C09.a"][0]
+    rg12 = Rule("C12", "C12.g", "a metadata document is published only from a temp file with a name unique to the call (shared with C09.a): "
+                "the per-document claim gives no exclusion over a staging name that another format of the same pid also uses", floor=1)
+    meta_inst = [x for x in c9.instances if "META" in x]
+    rg12.instances, rg12.nontrivial, rg12.obligations = meta_inst, set(meta_inst), max(len(meta_inst), 1)
+    for f in c9.findings:
+        if "META" in f.message:
+            rg12.fail(f.func, f.construct, f.message, f.loc, f.detail)
+    rules.append(rg12)
     return rules
 
 
@@ -586,6 +609,7 @@ def check_C16(A: Analysis, tier):
         if isinstance(n, ast.IfExp):
             mp_e, th_e = (n.body, n.orelse) if pol_mp_first else (n.orelse, n.body)
             a2 = re.sub(r"_mp\b", "_th", ast.unparse(mp_e))
+            a2 = re.sub(r"(['\"])mp\1", r"\1th\1", a2)
             if a2 != ast.unparse(th_e):
                 rc.fail(f, n, f"the two arms of the mode selection differ beyond the suffix: `{ast.unparse(mp_e)}` vs `{ast.unparse(th_e)}`: "
                         "one mode consults another claim list / condition than the other", A.p.loc(f, n))
